@@ -11,6 +11,7 @@ import (
 	"flag"
 	"fmt"
 	"os"
+	"sort"
 	"strings"
 	"time"
 
@@ -126,6 +127,8 @@ func main() {
 		check("HELLO 3 answers a map", bytes.HasPrefix(do(a, "HELLO", "3"), []byte("%")))
 		check("after HELLO 3 HGETALL is a map", bytes.HasPrefix(do(a, "HGETALL", "h"), []byte("%1")))
 		check("other connection still RESP2", bytes.HasPrefix(do(b, "HGETALL", "h"), []byte("*2")))
+		check("HELLO without version under RESP3 answers a map", bytes.HasPrefix(do(a, "HELLO"), []byte("%")))
+		check("HELLO without version leaves RESP3 in place", bytes.HasPrefix(do(a, "HGETALL", "h"), []byte("%1")))
 		for _, v := range []string{"4", "1", "0", "-1", "99"} {
 			r := do(a, "HELLO", v)
 			check("HELLO "+v+" is refused", bytes.HasPrefix(r, []byte("-")))
@@ -134,6 +137,44 @@ func main() {
 		check("HELLO 2 answers an array", bytes.HasPrefix(do(a, "HELLO", "2"), []byte("*")))
 		check("after HELLO 2 HGETALL is flat", bytes.HasPrefix(do(a, "HGETALL", "h"), []byte("*2")))
 		check("HELLO without version keeps the protocol", bytes.HasPrefix(do(a, "HELLO"), []byte("*")))
+		check("HELLO without version leaves RESP2 in place", bytes.HasPrefix(do(a, "HGETALL", "h"), []byte("*2")))
+		// replies with aggregates nested inside aggregates (maps in arrays in maps …): the RESP2 form is
+		// the canonical down-conversion at every level
+		do(b, "HELLO", "3")
+		do(a, "SET", "s1", "ohmytext")
+		do(a, "SET", "s2", "mynewtext")
+		for _, argv := range [][]string{{"COMMAND", "DOCS", "get"}, {"COMMAND", "DOCS", "set", "lpush"}, {"COMMAND", "INFO", "get", "hset"},
+			{"COMMAND", "DOCS"}, {"COMMAND"}, {"HELLO"}, {"CONFIG", "GET", "*"}, {"LCS", "s1", "s2", "IDX", "WITHMATCHLEN"},
+			{"COMMAND", "LIST"}, {"COMMAND", "COUNT"}, {"MEMORY", "STATS"}, {"CLIENT", "INFO"},
+			{"SMEMBERS", "nokey"}, {"HGETALL", "nokey"}} {
+			r2, p2 := a.Dispatch(toArgv(argv))
+			r3, p3 := b.Dispatch(toArgv(argv))
+			if p2 != "" || p3 != "" {
+				continue
+			}
+			stats["nested_reply_checks"]++
+			if !respio.Resp2Only(r2) {
+				check(fmt.Sprintf("%v on a RESP2 connection uses RESP2 types only (got %.200q)", argv, r2), false)
+			}
+			if argv[0] == "HELLO" || argv[0] == "CLIENT" {
+				continue // connection ids and protocol numbers differ
+			}
+			d, ok, pd := redisemu.VerifDown(r3)
+			exact := len(argv) > 2 || argv[0] == "LCS" || argv[0] == "SMEMBERS" || argv[0] == "HGETALL"
+			// maps have no defined order (the hook re-parses the RESP3 bytes): compare the multiset of lines
+			lines := func(b []byte) string {
+				l := strings.Split(string(b), "\r\n")
+				sort.Strings(l)
+				return strings.Join(l, "\n")
+			}
+			if pd == "" && ok && exact && argv[0] != "HRANDFIELD" && lines(d) != lines(r2) {
+				check(fmt.Sprintf("%v: the RESP2 reply %.300q is not the down-conversion %.300q of the RESP3 reply", argv, r2, d), false)
+			}
+			if pd == "" && ok && len(d) != len(r2) {
+				check(fmt.Sprintf("%v: RESP2 reply (%d bytes) is the down-conversion of the RESP3 reply (%d bytes)", argv, len(r2), len(d)), false)
+			}
+		}
+		do(b, "HELLO", "2")
 		r := do(b, "HELLO", "4")
 		check("refused HELLO on a RESP2 connection keeps RESP2", bytes.HasPrefix(r, []byte("-")) && bytes.HasPrefix(do(b, "HGETALL", "h"), []byte("*2")))
 		stats["sequences"]++
